@@ -61,6 +61,44 @@ PROPS["C18"] = {
     "level_note": "Trusted: Lean kernel, harness. Atomicity of the store methods is sampled by racing goroutines, not proved. Two open findings on the public glue (D12, D13).",
     "technique": "Lean 4 proof over all operation histories + exhaustive/random differential correspondence",
 }
+PROPS["C09"] = {
+    "lean": ["SioVerif.Props.C09"],
+    "components": ["siocodec"],
+    "facts": ["sioTypeConnect", "sioTypeDisconnect", "sioTypeEvent", "sioTypeAck", "sioTypeConnectError", "sioTypeBinaryEvent", "sioTypeBinaryAck"],
+    "rule": "headers: 7 types x 14 namespaces x 10 ack ids (0 .. 2^64-1) x 7 attachment counts, each encoded by the real Encode and decoded by the real Add; "
+            "whole packets: random EVENT/ACK packets with 0..3 arguments from {int64, unicode/quote/backslash strings, bool, null, sio.Binary 0..8 KiB, two struct "
+            "families, pointer to struct, map[string]any, []sio.Binary, []string} -> Encode -> Add -> decode into the emitting types (and into `any`), then the "
+            "input-intact and re-encode predicates; placeholder numbering of random []any trees against the model. Non-trivial = >=1 attachment, or a name with "
+            "quote/backslash, or a non-default namespace; distinct by the case description.",
+    "trusted_base": EXT + ["encoding/json is a parameter of the model (oracle answers recorded through the repo's own serializer.JSONSerializer seam); its contract "
+                           "(Unmarshal(Marshal v) = v on the generated subset, strings rendered as escape units) is sampled by the round-trip predicates"],
+    "assumptions": ["the reflection walk (which Go values are binary leaves, in which order) is tied to the tree model by correspondence on []any trees only; structs, maps and pointers are covered by the direct round-trip predicates"],
+    "partial": ["'encoding does not change the values it was given' is false of the code for shared values (finding D17)", "`any`-typed decode targets keep placeholders (finding D33)"],
+    "level_text": "Lean 4 theorems over an executable model of the repository's own Socket.IO codec code: the header printer/parser round-trips every well-formed header "
+                  "(all types, any comma-free namespace, ack ids and attachment counts in full range) in front of any JSON; the event-name pre-scan is exact for every JSON "
+                  "string body (quotes, backslashes, trailing backslash); placeholder numbering/substitution restores every attachment in its place; reassembly "
+                  "finishes exactly after the announced frames; packet type numbers proved equal to v5's. JSON is a recorded oracle. The model is compared with the "
+                  "real Encode/Add on >100k generated and exhaustive short inputs; round trip and input-intact predicates run on the real code.",
+    "level_note": "Trusted: Lean kernel, harness, encoding/json contract (sampled). Two open findings (D17 input mutated, D33 any-typed targets) are reported as KNOWN-FINDING.",
+    "technique": "Lean 4 proof over executable codec model with JSON as oracle + differential correspondence",
+}
+PROPS["C10"] = {
+    "lean": ["SioVerif.Props.C10"],
+    "components": ["siocodec"],
+    "facts": [],
+    "rule": "every byte string of length <=4 (thorough: <=5) over the 18-symbol alphabet 0256 7-/,\"\\[]{}:a1t fed to the real Add under recover, every finished packet "
+            "decoded against 6 handler signature families (typed Binary, map[string]any, any, struct, no args, string+Binary); grammar-aware mutations of valid binary "
+            "packets (placeholder numbers incl. negative/2^31/2^63/1e300/1.5, wrong attachment counts, truncated JSON); random multi-packet frame sequences with "
+            "missing/extra attachments and maxAttachments. Non-trivial = multi-frame sequence or placeholder mutation; distinct by request line.",
+    "trusted_base": EXT + ["encoding/json answers are oracle inputs of the model, so the theorems quantify over all of them"],
+    "assumptions": ["'the error is reported and other connections keep working' is exercised by the system rig (component siodispatch) when present in this check's component list"],
+    "level_text": "Lean 4 theorems over the decoder model: header parsing, reassembly and placeholder substitution never produce the panic outcome for any bytes and any "
+                  "JSON answers; every reachable decoder state with a pending packet waits for a positive number of frames and exactly that many complete it (never "
+                  "wedges); out-of-range placeholders are errors. The model is compared with the real decoder exhaustively on all short strings over the "
+                  "protocol-significant alphabet, with the real code run under recover for the panic predicate.",
+    "level_note": "Trusted: Lean kernel, harness. Panics inside encoding/json itself are outside the model (none observed).",
+    "technique": "Lean 4 proof (totality + invariant over all frame sequences) + exhaustive differential correspondence",
+}
 
 NOT_APPLICABLE = [
 ]
